@@ -11,18 +11,26 @@ def run_check(tier):
     chk.cov["rule"] = ("case = (object document, legal encoding, padding, policies, request script) executed on one medium; "
                        "distinct = distinct (document bytes, script, policies); non-trivial = at least one request")
     chk.assumptions += ["abstract load semantics spec/LoadScript.tla (A); MessagePack Layer-1 spec MsgPackFormat.tla checked by MC_MsgPackFormat",
+                        "implementation-shaped model of CMsgPackReadObjectScope spec/MsgPackScope.tla (M): M => A model-checked (MC_MsgPackScope); the private cursor of the real class (friend hook) is validated against M after every public call",
                         "observations compared by equality with the events A prescribes (bool of every request, target values, sentinel)"]
     quick = tier == "quick"
+    # M => A for the object scope itself (cursor machine over the bytes): every small map x every call history
+    cfg = mp.write_cfg("mc_scope_c03.cfg", "SPECIFICATION Spec\nCONSTANTS\n  MaxPairs = %d\n  MaxOps = %d\n  Widths = %s\nINVARIANTS NeverErr Cursor RequestAgrees VisitAgrees DtorAtEnd\n" % (
+        2, 3 if quick else 4, "{0, 4}" if quick else "{0, 1, 4, 5}"))
+    r = vlib.tlc("MC_MsgPackScope", cfg=cfg, timeout=3000, xmx="8g")
+    chk.add_tlc("MC_MsgPackScope (CMsgPackReadObjectScope M => A)", r)
     # window 8: every alignment of keys/values against the window boundary with small documents
     # exhaustive: all request histories of length <= 2; thorough: every padding 0..8 (generated in slices to bound memory)
-    pad_slices = [[5]] if quick else [[0, 1, 2], [3, 4, 5], [6, 7, 8]]
+    # (thorough: one TLC run per padding and pair of width policies, so that no run holds more than a quick run's worth of scenarios)
+    slices = [([5], "{0, 5}")] if quick else [([p], ws) for p in range(0, 9) for ws in ("{0, 1}", "{2, 5}")]
     scen8 = []
     pairs = []
-    for ps in pad_slices:
-        part = mp.gen("MC_LoadScript", {"Mode": '"fields"', "MaxOps": 2, "Widths": "{0, 5}" if quick else "{0, 1, 2, 5}", "Pads": mp.tla_set(ps)},
-                      ["SentinelIntact", "UnchangedOnFailure", "Export"], "fields-w8-p%d" % ps[0], chk, timeout=3000, xmx="8g")
+    for ps, ws in slices:
+        part = mp.gen("MC_LoadScript", {"Mode": '"fields"', "MaxOps": 2, "Widths": ws, "Pads": mp.tla_set(ps)},
+                      ["SentinelIntact", "UnchangedOnFailure", "Export"], "fields-w8-p%d-%s" % (ps[0], ws[1]), chk, timeout=3000, xmx="8g")
         pp = mp.replay(part, mp.MEDIA_SEEKABLE + ["nonseek"], 8, "f8")
         mp.judge(chk, pp, "MsgPack scripted load")
+        mp.validate_scope_states(chk, pp, "MsgPack scripted load")
         chk.add_cases(len(pp), distinct_keys=((json.dumps(s["doc"]), json.dumps(s["root"]), json.dumps(s["pol"])) for s in part), validated=len(pp))
         scen8 = part[:50]
         del pp, part
